@@ -1,6 +1,7 @@
 package main
 
 import (
+	"os"
 	"fmt"
 	"go/ast"
 	"go/parser"
@@ -587,6 +588,19 @@ func (x *Exec) callByContract(st *State, fr *Frame, fc *FuncContract, ci calleeI
 	env.old = old
 	env.st = st
 	for _, c := range fc.Ensures {
+		if id := os.Getenv("GVC_AUDIT_RELY"); id != "" && !fc.Extern && x.contract != nil && contractServes(x.contract, id) && !hasProp(propsOr(c.Props, fc.Props), id) {
+			// audit aid: a function serving property id assumes a postcondition that is proved under other properties only
+			fmt.Fprintf(os.Stderr, "RELY %s: %s assumes %s#post:%s proved under %v only\n", id, x.contract.Key, fc.Key, c.Label, propsOr(c.Props, fc.Props))
+		}
+		if !fc.Extern {
+			if x.relied == nil {
+				x.relied = map[string]map[string]bool{}
+			}
+			if x.relied[fc.mapKey()] == nil {
+				x.relied[fc.mapKey()] = map[string]bool{}
+			}
+			x.relied[fc.mapKey()][c.Label] = true
+		}
 		g, err := env.EvalBool(c.Expr)
 		if err != nil {
 			x.errorf("%s:%d: %v", c.File, c.Line, err)
